@@ -206,18 +206,25 @@ func changeNotSkipped(w *load.World, c *core.Collector) {
 // the way there sits in a loop: a batch written slice by slice keeps the slices that committed
 // when a later one is refused (a duplicate id in slice two leaves slice one inserted).
 func oneTransaction(w *load.World, c *core.Collector) {
+	txKind := "Write"
 	isWrite := func(ci ssa.CallInstruction) bool {
 		cc := ci.Common()
 		if cc.IsInvoke() {
-			return cc.Method.Name() == "Write" && strings.HasSuffix(cc.Value.Type().String(), "diskstore.DiskStore")
+			return cc.Method.Name() == txKind && strings.HasSuffix(cc.Value.Type().String(), "diskstore.DiskStore")
 		}
-		if g := cc.StaticCallee(); g != nil && g.Name() == "Write" && strings.HasSuffix(load.PkgPath(g), "/diskstore") {
+		if g := cc.StaticCallee(); g != nil && g.Name() == txKind && strings.HasSuffix(load.PkgPath(g), "/diskstore") {
 			return true
 		}
 		return false
 	}
 	n := 0
-	for _, name := range []string{"InsertPoints", "UpdatePoints", "DeletePoints"} {
+	for _, name := range []string{"InsertPoints", "UpdatePoints", "DeletePoints", "SearchPoints"} {
+		txKind = "Write"
+		if name == "SearchPoints" {
+			// a search answers from one snapshot: the ids the indexes return and the documents
+			// read for them come from the same read transaction
+			txKind = "Read"
+		}
 		f := findFn(w, "(*shard.Shard)."+name)
 		if f == nil {
 			continue
@@ -226,6 +233,9 @@ func oneTransaction(w *load.World, c *core.Collector) {
 		props := []string{"C01"}
 		if name == "InsertPoints" {
 			props = []string{"C01", "C15"}
+		}
+		if name == "SearchPoints" {
+			props = []string{"C09", "C01"}
 		}
 		type hit struct {
 			at     ssa.Instruction
@@ -267,15 +277,19 @@ func oneTransaction(w *load.World, c *core.Collector) {
 		case len(hits) == 0:
 			c.Add("DOCFLOW", key, core.Undecided, w.Position(f.Pos()), "no write transaction found under "+name, props...)
 		case len(hits) > 1:
-			c.Add("DOCFLOW", key, core.Violation, w.At(hits[1].at), fmt.Sprintf("%s opens %d write transactions: what the first committed stays when a later one is refused, the batch is no longer all-or-nothing", name, len(hits)), props...)
+			what := "what the first committed stays when a later one is refused, the batch is no longer all-or-nothing"
+			if txKind == "Read" {
+				what = "a write that commits between them makes the second see other points than the first (a node id from the first can be gone, or given to another point, in the second)"
+			}
+			c.Add("DOCFLOW", key, core.Violation, w.At(hits[1].at), fmt.Sprintf("%s opens %d %s transactions: %s", name, len(hits), strings.ToLower(txKind), what), props...)
 		case hits[0].looped:
 			c.Add("DOCFLOW", key, core.Violation, w.At(hits[0].at), name+" opens its write transaction inside a loop: the batch is committed slice by slice, and the slices that committed stay when a later one is refused (duplicate or already stored id), although the request is reported as failed", props...)
 		default:
 			c.Add("DOCFLOW", key, core.OK, w.At(hits[0].at), "", props...)
 		}
 	}
-	if n < 3 {
-		c.Add("DOCFLOW", "anchor:batch-methods", core.Undecided, "", fmt.Sprintf("found %d of the 3 batch methods of the shard", n), "C01")
+	if n < 4 {
+		c.Add("DOCFLOW", "anchor:batch-methods", core.Undecided, "", fmt.Sprintf("found %d of the 4 batch and search methods of the shard", n), "C01")
 	}
 }
 
